@@ -15,7 +15,7 @@
         open spec fn dec_stop(rest: Seq<u8>) -> bool { rest.len() == 0 || (match <zvt_builder::encoding::Default as zvt_builder::encoding::Encoding<zvt_builder::Tag>>::spec_dec(rest) { None => true, Some((t, _)) => t.0 != 65u16 && t.0 != 67u16 }) }
         /// the tag loop is specified by totality and frame clauses only
         open spec fn functional() -> bool { false }
-        //@ fn exp:zvt | impl zvt_builder::encoding::Encoding<Subs> for zvt_builder::encoding::Default | encode | mod=packets::tlv props=C03
+        //@ fn exp:zvt | impl zvt_builder::encoding::Encoding<Subs> for zvt_builder::encoding::Default | encode | mod=packets::tlv props=C03,~C01
         //@ end
         //@ fn exp:zvt | impl zvt_builder::encoding::Encoding<Subs> for zvt_builder::encoding::Default | decode | mod=packets::tlv all-loops props=C02,C14
         //@ loop 0
@@ -86,7 +86,7 @@
         open spec fn dec_stop(rest: Seq<u8>) -> bool { rest.len() == 0 || (match <zvt_builder::encoding::Default as zvt_builder::encoding::Encoding<zvt_builder::Tag>>::spec_dec(rest) { None => true, Some((t, _)) => true }) }
         /// the tag loop is specified by totality and frame clauses only
         open spec fn functional() -> bool { false }
-        //@ fn exp:zvt | impl zvt_builder::encoding::Encoding<SubsOnCard> for zvt_builder::encoding::Default | encode | mod=packets::tlv props=C03
+        //@ fn exp:zvt | impl zvt_builder::encoding::Encoding<SubsOnCard> for zvt_builder::encoding::Default | encode | mod=packets::tlv props=C03,~C01
         //@ end
         //@ fn exp:zvt | impl zvt_builder::encoding::Encoding<SubsOnCard> for zvt_builder::encoding::Default | decode | mod=packets::tlv all-loops props=C02,C14
         //@ loop 0
@@ -155,7 +155,7 @@
         open spec fn dec_stop(rest: Seq<u8>) -> bool { rest.len() == 0 || (match <zvt_builder::encoding::Default as zvt_builder::encoding::Encoding<zvt_builder::Tag>>::spec_dec(rest) { None => true, Some((t, _)) => t.0 != 76u16 && t.0 != 7947u16 && t.0 != 7956u16 && t.0 != 8005u16 && t.0 != 8012u16 && t.0 != 8013u16 && t.0 != 8015u16 && t.0 != 8016u16 && t.0 != 98u16 }) }
         /// the tag loop is specified by totality and frame clauses only
         open spec fn functional() -> bool { false }
-        //@ fn exp:zvt | impl zvt_builder::encoding::Encoding<StatusInformation> for zvt_builder::encoding::Default | encode | mod=packets::tlv props=C03
+        //@ fn exp:zvt | impl zvt_builder::encoding::Encoding<StatusInformation> for zvt_builder::encoding::Default | encode | mod=packets::tlv props=C03,~C01
         //@ end
         //@ fn exp:zvt | impl zvt_builder::encoding::Encoding<StatusInformation> for zvt_builder::encoding::Default | decode | mod=packets::tlv all-loops props=C02,C14
         //@ loop 0
@@ -278,7 +278,7 @@
         open spec fn dec_stop(rest: Seq<u8>) -> bool { rest.len() == 0 || (match <zvt_builder::encoding::Default as zvt_builder::encoding::Encoding<zvt_builder::Tag>>::spec_dec(rest) { None => true, Some((t, _)) => t.0 != 8178u16 }) }
         /// the tag loop is specified by totality and frame clauses only
         open spec fn functional() -> bool { false }
-        //@ fn exp:zvt | impl zvt_builder::encoding::Encoding<StatusEnquiry> for zvt_builder::encoding::Default | encode | mod=packets::tlv props=C03
+        //@ fn exp:zvt | impl zvt_builder::encoding::Encoding<StatusEnquiry> for zvt_builder::encoding::Default | encode | mod=packets::tlv props=C03,~C01
         //@ end
         //@ fn exp:zvt | impl zvt_builder::encoding::Encoding<StatusEnquiry> for zvt_builder::encoding::Default | decode | mod=packets::tlv all-loops props=C02,C14
         //@ loop 0
@@ -343,7 +343,7 @@
         open spec fn dec_stop(rest: Seq<u8>) -> bool { rest.len() == 0 || (match <zvt_builder::encoding::Default as zvt_builder::encoding::Encoding<zvt_builder::Tag>>::spec_dec(rest) { None => true, Some((t, _)) => t.0 != 8000u16 && t.0 != 8001u16 && t.0 != 8002u16 && t.0 != 8003u16 }) }
         /// the tag loop is specified by totality and frame clauses only
         open spec fn functional() -> bool { false }
-        //@ fn exp:zvt | impl zvt_builder::encoding::Encoding<DeviceInformation> for zvt_builder::encoding::Default | encode | mod=packets::tlv props=C03
+        //@ fn exp:zvt | impl zvt_builder::encoding::Encoding<DeviceInformation> for zvt_builder::encoding::Default | encode | mod=packets::tlv props=C03,~C01
         //@ end
         //@ fn exp:zvt | impl zvt_builder::encoding::Encoding<DeviceInformation> for zvt_builder::encoding::Default | decode | mod=packets::tlv all-loops props=C02,C14
         //@ loop 0
@@ -426,7 +426,7 @@
         open spec fn dec_stop(rest: Seq<u8>) -> bool { rest.len() == 0 || (match <zvt_builder::encoding::Default as zvt_builder::encoding::Encoding<zvt_builder::Tag>>::spec_dec(rest) { None => true, Some((t, _)) => t.0 != 8004u16 && t.0 != 228u16 && t.0 != 52u16 }) }
         /// the tag loop is specified by totality and frame clauses only
         open spec fn functional() -> bool { false }
-        //@ fn exp:zvt | impl zvt_builder::encoding::Encoding<ReceiptPrintoutCompletion> for zvt_builder::encoding::Default | encode | mod=packets::tlv props=C03
+        //@ fn exp:zvt | impl zvt_builder::encoding::Encoding<ReceiptPrintoutCompletion> for zvt_builder::encoding::Default | encode | mod=packets::tlv props=C03,~C01
         //@ end
         //@ fn exp:zvt | impl zvt_builder::encoding::Encoding<ReceiptPrintoutCompletion> for zvt_builder::encoding::Default | decode | mod=packets::tlv all-loops props=C02,C14
         //@ loop 0
@@ -503,7 +503,7 @@
         open spec fn dec_stop(rest: Seq<u8>) -> bool { rest.len() == 0 || (match <zvt_builder::encoding::Default as zvt_builder::encoding::Encoding<zvt_builder::Tag>>::spec_dec(rest) { None => true, Some((t, _)) => t.0 != 7958u16 && t.0 != 7959u16 }) }
         /// the tag loop is specified by totality and frame clauses only
         open spec fn functional() -> bool { false }
-        //@ fn exp:zvt | impl zvt_builder::encoding::Encoding<ReservationAbort> for zvt_builder::encoding::Default | encode | mod=packets::tlv props=C03
+        //@ fn exp:zvt | impl zvt_builder::encoding::Encoding<ReservationAbort> for zvt_builder::encoding::Default | encode | mod=packets::tlv props=C03,~C01
         //@ end
         //@ fn exp:zvt | impl zvt_builder::encoding::Encoding<ReservationAbort> for zvt_builder::encoding::Default | decode | mod=packets::tlv all-loops props=C02,C14
         //@ loop 0
@@ -574,7 +574,7 @@
         open spec fn dec_stop(rest: Seq<u8>) -> bool { rest.len() == 0 || (match <zvt_builder::encoding::Default as zvt_builder::encoding::Encoding<zvt_builder::Tag>>::spec_dec(rest) { None => true, Some((t, _)) => t.0 != 8034u16 && t.0 != 8035u16 }) }
         /// the tag loop is specified by totality and frame clauses only
         open spec fn functional() -> bool { false }
-        //@ fn exp:zvt | impl zvt_builder::encoding::Encoding<Bmp60> for zvt_builder::encoding::Default | encode | mod=packets::tlv props=C03
+        //@ fn exp:zvt | impl zvt_builder::encoding::Encoding<Bmp60> for zvt_builder::encoding::Default | encode | mod=packets::tlv props=C03,~C01
         //@ end
         //@ fn exp:zvt | impl zvt_builder::encoding::Encoding<Bmp60> for zvt_builder::encoding::Default | decode | mod=packets::tlv all-loops props=C02,C14
         //@ loop 0
@@ -645,7 +645,7 @@
         open spec fn dec_stop(rest: Seq<u8>) -> bool { rest.len() == 0 || (match <zvt_builder::encoding::Default as zvt_builder::encoding::Encoding<zvt_builder::Tag>>::spec_dec(rest) { None => true, Some((t, _)) => t.0 != 233u16 }) }
         /// the tag loop is specified by totality and frame clauses only
         open spec fn functional() -> bool { false }
-        //@ fn exp:zvt | impl zvt_builder::encoding::Encoding<AuthData> for zvt_builder::encoding::Default | encode | mod=packets::tlv props=C03
+        //@ fn exp:zvt | impl zvt_builder::encoding::Encoding<AuthData> for zvt_builder::encoding::Default | encode | mod=packets::tlv props=C03,~C01
         //@ end
         //@ fn exp:zvt | impl zvt_builder::encoding::Encoding<AuthData> for zvt_builder::encoding::Default | decode | mod=packets::tlv all-loops props=C02,C14
         //@ loop 0
@@ -710,7 +710,7 @@
         open spec fn dec_stop(rest: Seq<u8>) -> bool { rest.len() == 0 || (match <zvt_builder::encoding::Default as zvt_builder::encoding::Encoding<zvt_builder::Tag>>::spec_dec(rest) { None => true, Some((t, _)) => t.0 != 233u16 }) }
         /// the tag loop is specified by totality and frame clauses only
         open spec fn functional() -> bool { false }
-        //@ fn exp:zvt | impl zvt_builder::encoding::Encoding<PreAuthData> for zvt_builder::encoding::Default | encode | mod=packets::tlv props=C03
+        //@ fn exp:zvt | impl zvt_builder::encoding::Encoding<PreAuthData> for zvt_builder::encoding::Default | encode | mod=packets::tlv props=C03,~C01
         //@ end
         //@ fn exp:zvt | impl zvt_builder::encoding::Encoding<PreAuthData> for zvt_builder::encoding::Default | decode | mod=packets::tlv all-loops props=C02,C14
         //@ loop 0
@@ -775,7 +775,7 @@
         open spec fn dec_stop(rest: Seq<u8>) -> bool { rest.len() == 0 || (match <zvt_builder::encoding::Default as zvt_builder::encoding::Encoding<zvt_builder::Tag>>::spec_dec(rest) { None => true, Some((t, _)) => t.0 != 27u16 }) }
         /// the tag loop is specified by totality and frame clauses only
         open spec fn functional() -> bool { false }
-        //@ fn exp:zvt | impl zvt_builder::encoding::Encoding<Diagnosis> for zvt_builder::encoding::Default | encode | mod=packets::tlv props=C03
+        //@ fn exp:zvt | impl zvt_builder::encoding::Encoding<Diagnosis> for zvt_builder::encoding::Default | encode | mod=packets::tlv props=C03,~C01
         //@ end
         //@ fn exp:zvt | impl zvt_builder::encoding::Encoding<Diagnosis> for zvt_builder::encoding::Default | decode | mod=packets::tlv all-loops props=C02,C14
         //@ loop 0
@@ -840,7 +840,7 @@
         open spec fn dec_stop(rest: Seq<u8>) -> bool { rest.len() == 0 || (match <zvt_builder::encoding::Default as zvt_builder::encoding::Encoding<zvt_builder::Tag>>::spec_dec(rest) { None => true, Some((t, _)) => t.0 != 7957u16 && t.0 != 8032u16 }) }
         /// the tag loop is specified by totality and frame clauses only
         open spec fn functional() -> bool { false }
-        //@ fn exp:zvt | impl zvt_builder::encoding::Encoding<ReadCard> for zvt_builder::encoding::Default | encode | mod=packets::tlv props=C03
+        //@ fn exp:zvt | impl zvt_builder::encoding::Encoding<ReadCard> for zvt_builder::encoding::Default | encode | mod=packets::tlv props=C03,~C01
         //@ end
         //@ fn exp:zvt | impl zvt_builder::encoding::Encoding<ReadCard> for zvt_builder::encoding::Default | decode | mod=packets::tlv all-loops props=C02,C14
         //@ loop 0
@@ -911,7 +911,7 @@
         open spec fn dec_stop(rest: Seq<u8>) -> bool { rest.len() == 0 || (match <zvt_builder::encoding::Default as zvt_builder::encoding::Encoding<zvt_builder::Tag>>::spec_dec(rest) { None => true, Some((t, _)) => t.0 != 7u16 }) }
         /// the tag loop is specified by totality and frame clauses only
         open spec fn functional() -> bool { false }
-        //@ fn exp:zvt | impl zvt_builder::encoding::Encoding<ZvtString> for zvt_builder::encoding::Default | encode | mod=packets::tlv props=C03
+        //@ fn exp:zvt | impl zvt_builder::encoding::Encoding<ZvtString> for zvt_builder::encoding::Default | encode | mod=packets::tlv props=C03,~C01
         //@ end
         //@ fn exp:zvt | impl zvt_builder::encoding::Encoding<ZvtString> for zvt_builder::encoding::Default | decode | mod=packets::tlv all-loops props=C02,C14
         //@ loop 0
@@ -976,7 +976,7 @@
         open spec fn dec_stop(rest: Seq<u8>) -> bool { rest.len() == 0 || (match <zvt_builder::encoding::Default as zvt_builder::encoding::Encoding<zvt_builder::Tag>>::spec_dec(rest) { None => true, Some((t, _)) => t.0 != 9u16 }) }
         /// the tag loop is specified by totality and frame clauses only
         open spec fn functional() -> bool { false }
-        //@ fn exp:zvt | impl zvt_builder::encoding::Encoding<TextLines> for zvt_builder::encoding::Default | encode | mod=packets::tlv props=C03
+        //@ fn exp:zvt | impl zvt_builder::encoding::Encoding<TextLines> for zvt_builder::encoding::Default | encode | mod=packets::tlv props=C03,~C01
         //@ end
         //@ fn exp:zvt | impl zvt_builder::encoding::Encoding<TextLines> for zvt_builder::encoding::Default | decode | mod=packets::tlv all-loops props=C02,C14
         //@ loop 0
@@ -1051,7 +1051,7 @@
         open spec fn dec_stop(rest: Seq<u8>) -> bool { rest.len() == 0 || (match <zvt_builder::encoding::Default as zvt_builder::encoding::Encoding<zvt_builder::Tag>>::spec_dec(rest) { None => true, Some((t, _)) => t.0 != 7943u16 && t.0 != 37u16 }) }
         /// the tag loop is specified by totality and frame clauses only
         open spec fn functional() -> bool { false }
-        //@ fn exp:zvt | impl zvt_builder::encoding::Encoding<PrintTextBlock> for zvt_builder::encoding::Default | encode | mod=packets::tlv props=C03
+        //@ fn exp:zvt | impl zvt_builder::encoding::Encoding<PrintTextBlock> for zvt_builder::encoding::Default | encode | mod=packets::tlv props=C03,~C01
         //@ end
         //@ fn exp:zvt | impl zvt_builder::encoding::Encoding<PrintTextBlock> for zvt_builder::encoding::Default | decode | mod=packets::tlv all-loops props=C02,C14
         //@ loop 0
@@ -1122,7 +1122,7 @@
         open spec fn dec_stop(rest: Seq<u8>) -> bool { rest.len() == 0 || (match <zvt_builder::encoding::Default as zvt_builder::encoding::Encoding<zvt_builder::Tag>>::spec_dec(rest) { None => true, Some((t, _)) => t.0 != 26u16 }) }
         /// the tag loop is specified by totality and frame clauses only
         open spec fn functional() -> bool { false }
-        //@ fn exp:zvt | impl zvt_builder::encoding::Encoding<Registration> for zvt_builder::encoding::Default | encode | mod=packets::tlv props=C03
+        //@ fn exp:zvt | impl zvt_builder::encoding::Encoding<Registration> for zvt_builder::encoding::Default | encode | mod=packets::tlv props=C03,~C01
         //@ end
         //@ fn exp:zvt | impl zvt_builder::encoding::Encoding<Registration> for zvt_builder::encoding::Default | decode | mod=packets::tlv all-loops props=C02,C14
         //@ loop 0
